@@ -1,5 +1,5 @@
 (* The accessors on the tree of a well-formed relationship field:
-   racc (rtree_of f) = Ok (rcontent_drop_neg f), and the readers' text. *)
+   racc (rtree_of f) = Ok (rcontent_acc f), and the readers' text. *)
 From Coq Require Import DecimalN DecimalFacts.
 From V.model Require Import Base RelLex RelParse RelAcc RelGrammar.
 From V.proofs Require Import BaseP RelLexP RelParseP RelGrammarLexP RelGrammarParseP.
@@ -185,18 +185,17 @@ Proof.
   rewrite (ident_not_colon x Hx). reflexivity.
 Qed.
 
-Lemma roundtrip_epoch e s : epoch_ok e = true -> ident_ok s = true ->
-  debversion_roundtrip (e ++ 58%N :: s) = Ok (e ++ 58%N :: s).
+Lemma roundtrip_epoch e c w : epoch_ok e = true -> forallb is_version_char (c :: w) = true ->
+  debversion_roundtrip (e ++ 58%N :: c :: w) = Ok (e ++ 58%N :: c :: w).
 Proof.
   intros He Hs. pose proof (epoch_ident e He) as Hei.
   unfold epoch_ok in He. andb_split He.
-  destruct (ident_ok_inv s Hs) as (c & w & -> & Hc & Hw).
   destruct (ident_ok_inv e Hei) as (e0 & e' & Ee & He0 & He'). subst e.
   unfold debversion_roundtrip. cbn [app].
   assert (Hall : forallb is_version_char ((e0 :: e') ++ 58%N :: c :: w) = true).
   { rewrite forallb_app. rewrite (ident_all_version (e0 :: e')) by (cbn [forallb]; rewrite He0, He'; reflexivity).
-    cbn [forallb andb]. change (is_version_char 58) with true. cbn [andb].
-    rewrite (ident_version_char c Hc), (ident_all_version w Hw). reflexivity. }
+    cbn [andb]. change (forallb is_version_char (58%N :: c :: w)) with (is_version_char 58 && forallb is_version_char (c :: w)).
+    rewrite Hs. reflexivity. }
   change (e0 :: e' ++ 58%N :: c :: w) with ((e0 :: e') ++ 58%N :: c :: w).
   rewrite Hall. cbn [negb].
   rewrite (span_app_stop is_digit (e0 :: e') (58%N :: c :: w) W1 eq_refl).
@@ -205,12 +204,25 @@ Proof.
   rewrite digits_uint_digits by exact W1. reflexivity.
 Qed.
 
-Lemma roundtrip_vtext v : opt_ok epoch_ok (v_epoch v) = true -> ident_ok (v_ver v) = true ->
-  debversion_roundtrip (vtext v) = Ok (vtext v).
+Lemma pieces_version_chars ps : forallb ident_ok ps = true ->
+  forallb is_version_char (flat_map (fun p => 58%N :: p) ps) = true.
 Proof.
-  intros He Hv. unfold vtext. destruct (v_epoch v) as [e|]; cbn [opt_ok] in He.
-  - rewrite <- app_assoc. cbn [app]. apply roundtrip_epoch; assumption.
-  - cbn [app]. apply roundtrip_plain, Hv.
+  induction ps as [|p r IH]; [reflexivity|]. cbn [forallb flat_map]. intros H. apply andb_true_iff in H. destruct H as [Hp Hr].
+  destruct (ident_ok_inv p Hp) as (c & w & -> & Hc & Hw).
+  change ((58%N :: c :: w) ++ flat_map (fun p => 58%N :: p) r) with (58%N :: (c :: w) ++ flat_map (fun p => 58%N :: p) r).
+  cbn [forallb]. change (is_version_char 58) with true. cbn [andb]. rewrite forallb_app, (IH Hr), andb_true_r.
+  apply ident_all_version. cbn [forallb]. rewrite Hc, Hw. reflexivity.
+Qed.
+
+Lemma roundtrip_vtext v : vclause_ok v = true -> debversion_roundtrip (vtext v) = Ok (vtext v).
+Proof.
+  intros H. destruct (vclause_ok_inv v H) as (_ & _ & _ & _ & He & Hv & Hm & Hnone).
+  unfold vtext. destruct (v_epoch v) as [e|]; cbn [opt_ok] in He.
+  - destruct (ident_ok_inv _ Hv) as (c & w & E & Hc & Hw). rewrite E. rewrite <- app_assoc. cbn [app].
+    apply roundtrip_epoch; [exact He|].
+    change (c :: w ++ flat_map (fun p => 58%N :: p) (v_more v)) with ((c :: w) ++ flat_map (fun p => 58%N :: p) (v_more v)).
+    rewrite forallb_app, (pieces_version_chars _ Hm), andb_true_r. apply ident_all_version. cbn [forallb]. rewrite Hc, Hw. reflexivity.
+  - rewrite (Hnone eq_refl). cbn [app flat_map]. rewrite app_nil_r. apply roundtrip_plain, Hv.
 Qed.
 
 Lemma vtext_nonempty v : ident_ok (v_ver v) = true -> vtext v <> [].
@@ -221,8 +233,18 @@ Qed.
 
 Lemma version_text_vtoks v : version_text_of (elems (vtext_toks v)) = vtext v.
 Proof.
-  unfold vtext_toks, vtext. destruct (v_epoch v) as [e|]; cbn; rewrite ?app_nil_r; [|reflexivity].
-  rewrite <- app_assoc. reflexivity.
+  assert (Hp : forall ps, version_text_of (elems (flat_map (fun p => [(COLON, [58%N]); (IDENT, p)]) ps)) = flat_map (fun p => 58%N :: p) ps).
+  { induction ps as [|p r IH]; [reflexivity|]. cbn [flat_map app]. 
+    change (elems ((COLON, [58%N]) :: (IDENT, p) :: ?x)) with (Tok COLON [58%N] :: Tok IDENT p :: elems x).
+    change (version_text_of (Tok COLON [58%N] :: Tok IDENT p :: ?x)) with ([58%N] ++ p ++ version_text_of x).
+    rewrite IH. reflexivity. }
+  unfold vtext_toks, vtext. destruct (v_epoch v) as [e|]; cbn [app].
+  - change (elems ((IDENT, e) :: (COLON, [58%N]) :: (IDENT, v_ver v) :: ?x)) with (Tok IDENT e :: Tok COLON [58%N] :: Tok IDENT (v_ver v) :: elems x).
+    change (version_text_of (Tok IDENT e :: Tok COLON [58%N] :: Tok IDENT (v_ver v) :: ?x)) with (e ++ [58%N] ++ v_ver v ++ version_text_of x).
+    rewrite Hp, <- app_assoc. reflexivity.
+  - change (elems ((IDENT, v_ver v) :: ?x)) with (Tok IDENT (v_ver v) :: elems x).
+    change (version_text_of (Tok IDENT (v_ver v) :: ?x)) with (v_ver v ++ version_text_of x).
+    rewrite Hp. reflexivity.
 Qed.
 
 Lemma acc_ver r last : wf_rel r = true ->
@@ -231,7 +253,7 @@ Proof.
   intros H. unfold wf_rel in H. andb_split H.
   unfold relation_version. rewrite fn_rel by discriminate. cbn [rkind_eqb rkind_code N.eqb Pos.eqb].
   destruct (r_ver r) as [v|]; cbn [option_map]; [|reflexivity].
-  cbn [opt_ok] in W2. unfold vclause_ok in W2. andb_split W2.
+  cbn [opt_ok] in W2. pose proof W2 as Hvok. destruct (vclause_ok_inv v W2) as (_ & _ & _ & _ & _ & W4 & _ & _).
   cbn [vnode children first_node_of_kind]. rewrite first_node_app, fn_ws.
   cbn [app first_node_of_kind rkind_eqb rkind_code N.eqb Pos.eqb].
   assert (E : version_text_of
@@ -245,27 +267,40 @@ Proof.
   destruct (vtext v) as [|c0 w0] eqn:Ev; [destruct (vtext_nonempty v W4 Ev)|]. rewrite <- Ev.
   replace (vop_of_text (text (Node CONSTRAINT (elems (vop_toks (v_op v)))))) with (Some (v_op v))
     by (destruct (v_op v); reflexivity).
-  rewrite (roundtrip_vtext v W5 W4). reflexivity.
+  rewrite (roundtrip_vtext v Hvok). reflexivity.
 Qed.
 
 (* ---- architectures ---- *)
-Lemma tok_texts_terms terms : tok_texts_of_kind IDENT (elems (flat_map term_toks terms)) = map t_name terms.
+Lemma arch_fold_ws w : forall X b, arch_fold (ws_elems w ++ X) b = arch_fold X b.
 Proof.
-  induction terms as [|t r IH]; [reflexivity|]. cbn [flat_map map]. rewrite elems_app, tok_texts_app, IH.
-  unfold term_toks. rewrite elems_app, tok_texts_app. fold (ws_elems (t_ws t)). rewrite tok_texts_ws by reflexivity.
-  destruct (t_neg t); reflexivity.
+  unfold ws_elems. pose proof (ws_toks_kinds w) as H.
+  induction (ws_toks w) as [|[k s] t IH]; intros X b; [reflexivity|].
+  inversion H as [|? ? Hk Ht]; subst. cbn [fst] in Hk.
+  cbn [elems map tk fst snd app arch_fold]. change (map tk t) with (elems t).
+  destruct k; try discriminate; cbn [rkind_eqb rkind_code N.eqb Pos.eqb]; apply IH, Ht.
+Qed.
+
+Lemma arch_fold_terms terms : forall X,
+  arch_fold (elems (flat_map term_toks terms) ++ X) false = map (fun t => arch_acc_text (term_arch t)) terms ++ arch_fold X false.
+Proof.
+  induction terms as [|t r IH]; intros X; [reflexivity|]. cbn [flat_map map]. rewrite elems_app, <- app_assoc.
+  unfold term_toks at 1. rewrite !elems_app, <- !app_assoc. fold (ws_elems (t_ws t)). rewrite arch_fold_ws.
+  unfold arch_acc_text, term_arch. cbn [fst snd].
+  destruct (t_neg t); cbn [neg_toks neg_text elems map tk fst snd app arch_fold rkind_eqb rkind_code N.eqb Pos.eqb];
+    rewrite IH; reflexivity.
 Qed.
 
 Lemma acc_archs r last :
-  relation_architectures (rel_tree r last) = option_map (fun g => map t_name (g_terms g)) (r_archs r).
+  relation_architectures (rel_tree r last) =
+  option_map (fun g => map (fun t => arch_acc_text (term_arch t)) (g_terms g)) (r_archs r).
 Proof.
   unfold relation_architectures. rewrite fn_rel by discriminate. cbn [rkind_eqb rkind_code N.eqb Pos.eqb].
   destruct (r_archs r) as [g|]; cbn [option_map]; [|reflexivity]. f_equal.
   unfold arch_node, group_node, group_body_toks. cbn [children].
   change (elems ((L_BRACKET, [91%N]) :: ?x)) with (Tok L_BRACKET [91%N] :: elems x).
-  change (tok_texts_of_kind IDENT (Tok L_BRACKET [91%N] :: ?x)) with (tok_texts_of_kind IDENT x).
-  rewrite !elems_app, !tok_texts_app, tok_texts_terms. fold (ws_elems (g_ws1 g)).
-  rewrite tok_texts_ws by reflexivity. cbn. rewrite app_nil_r. reflexivity.
+  cbn [arch_fold rkind_eqb rkind_code N.eqb Pos.eqb].
+  rewrite elems_app, arch_fold_terms, elems_app. fold (ws_elems (g_ws1 g)). rewrite arch_fold_ws.
+  cbn. rewrite app_nil_r. reflexivity.
 Qed.
 
 (* ---- profiles ---- *)
@@ -382,10 +417,10 @@ Qed.
 
 (* ---- a relation, an entry, the field ---- *)
 Lemma relation_acc_rel r last : wf_rel r = true ->
-  relation_acc (rel_tree r last) = Ok (relx_drop_neg (rel_content r)).
+  relation_acc (rel_tree r last) = Ok (relx_acc (rel_content r)).
 Proof.
   intros H. unfold relation_acc. rewrite acc_name, (acc_ver r last H), acc_qual, acc_archs, (acc_profs r last H).
-  unfold relx_drop_neg, rel_content. cbn [x_name x_qual x_ver x_archs x_profs]. f_equal. f_equal.
+  unfold relx_acc, rel_content. cbn [x_name x_qual x_ver x_archs x_profs]. f_equal. f_equal.
   destruct (r_archs r) as [g|]; cbn [option_map]; [|reflexivity]. rewrite map_map. reflexivity.
 Qed.
 
@@ -396,7 +431,7 @@ Proof. apply nodes_of_elems. Qed.
 
 Lemma entry_acc_rels alts : forall r last, wf_rel r = true -> forallb wf_alt alts = true ->
   res_all relation_acc (nodes_of RELATION (rels_elems r alts last)) =
-  Ok (relx_drop_neg (rel_content r) :: map (fun wr => relx_drop_neg (rel_content (snd wr))) alts).
+  Ok (relx_acc (rel_content r) :: map (fun wr => relx_acc (rel_content (snd wr))) alts).
 Proof.
   induction alts as [|[w r'] alts IH]; intros r last Hr Ha; cbn [rels_elems].
   - change (nodes_of RELATION (rel_tree r last :: ?x)) with (rel_tree r last :: nodes_of RELATION x).
@@ -414,7 +449,7 @@ Qed.
 
 Lemma entry_acc_entry r alts last : wf_rel r = true -> forallb wf_alt alts = true ->
   entry_acc (Node ENTRY (rels_elems r alts last)) =
-  Ok (relx_drop_neg (rel_content r) :: map (fun wr => relx_drop_neg (rel_content (snd wr))) alts).
+  Ok (relx_acc (rel_content r) :: map (fun wr => relx_acc (rel_content (snd wr))) alts).
 Proof. intros Hr Ha. exact (entry_acc_rels alts r last Hr Ha). Qed.
 
 Lemma texts_elems l : texts (elems l) = rttext l.
@@ -433,7 +468,7 @@ Qed.
 
 Lemma field_entries a more : forall i, wf_item a i = true -> forallb (wf_more a) more = true ->
   res_all entry_acc (nodes_of ENTRY (items_elems i more)) =
-  Ok (map (map relx_drop_neg) (flat_map item_entries (i :: map snd more))).
+  Ok (map (map relx_acc) (flat_map item_entries (i :: map snd more))).
 Proof.
   induction more as [|[w i'] more IH]; intros i Hi Hm; cbn [items_elems is_nil].
   - rewrite app_nil_r. destruct i as [r alts|seg segs trail|]; cbn [item_elems item_entries flat_map map app wf_item] in *.
@@ -472,7 +507,7 @@ Proof.
     + reflexivity.
 Qed.
 
-Theorem racc_rtree_of a f : wf_rfield a f = true -> racc (rtree_of f) = Ok (rcontent_drop_neg f).
+Theorem racc_rtree_of a f : wf_rfield a f = true -> racc (rtree_of f) = Ok (rcontent_acc f).
 Proof.
   intros H. unfold wf_rfield in H. andb_split H.
   unfold racc, relations_entries, relations_substvars, r_entries, rnodes_of_kind, rtree_of. cbn [children].
@@ -504,7 +539,7 @@ Theorem C10_lossless_all a f : wf_rfield a f = true ->
   parse_tokens a (rtoks f) = Ok (rtree_of f, 0) /\
   parse_relaxed (rrender f) a = Ok (rtree_of f, 0) /\
   text (rtree_of f) = rrender f /\
-  racc (rtree_of f) = Ok (rcontent_drop_neg f).
+  racc (rtree_of f) = Ok (rcontent_acc f).
 Proof.
   intros H. split; [apply (rlex_rrender a), H|]. split; [apply parse_rtoks, H|].
   split; [apply parse_rrender, H|]. split; [apply (text_rtree_of a), H|apply (racc_rtree_of a), H].
@@ -514,32 +549,42 @@ Qed.
 Theorem from_str_rrender f : wf_rfield false f = true -> relations_from_str (rrender f) = Ok (rtree_of f).
 Proof. intros H. unfold relations_from_str. rewrite (parse_rrender false f H). reflexivity. Qed.
 
-(* ---- negated architectures: the accessor result seen as content ---- *)
-Lemma relc_view_drop x : existsb fst (match x_archs x with Some l => l | None => [] end) = false ->
-  relc_view (relx_drop_neg x) = x.
+(* ---- the accessor result read back as content ---- *)
+Lemma arch_view_text t : ident_ok (t_name t) = true -> arch_of_text (arch_acc_text (term_arch t)) = term_arch t.
 Proof.
-  destruct x as [n q v ar p]. unfold relc_view, relx_drop_neg. cbn [x_name x_qual x_ver x_archs x_profs c_name c_qual c_ver c_archs c_profs].
-  intros H. f_equal. destruct ar as [l|]; cbn [option_map]; [|reflexivity]. f_equal.
-  induction l as [|[b s] r IH]; [reflexivity|]. cbn [existsb fst] in H. apply orb_false_iff in H. destruct H as [-> Hr].
-  cbn [map snd]. rewrite (IH Hr). reflexivity.
+  intros H. destruct (ident_ok_inv _ H) as (c & w & E & Hc & _). unfold arch_acc_text, term_arch, arch_of_text. cbn [fst snd].
+  rewrite E. destruct (t_neg t); cbn [neg_text app N.eqb Pos.eqb]; [reflexivity|].
+  destruct (N.eqb_spec c 33) as [->|]; [discriminate|reflexivity].
 Qed.
 
-Lemma rel_content_noneg r : rel_neg_arch r = false ->
-  existsb fst (match x_archs (rel_content r) with Some l => l | None => [] end) = false.
+Lemma relc_view_rel r : wf_rel r = true -> relc_view (relx_acc (rel_content r)) = rel_content r.
 Proof.
-  unfold rel_neg_arch, rel_content. cbn [x_archs]. destruct (r_archs r) as [g|]; cbn [option_map]; [|reflexivity].
-  induction (g_terms g) as [|t r' IH]; [reflexivity|]. cbn [existsb map term_arch fst]. intros H.
-  apply orb_false_iff in H. destruct H as [-> Hr]. exact (IH Hr).
+  intros H. unfold wf_rel in H. andb_split H.
+  unfold relc_view, relx_acc, rel_content. cbn [x_name x_qual x_ver x_archs x_profs c_name c_qual c_ver c_archs c_profs].
+  f_equal. destruct (r_archs r) as [g|]; cbn [option_map opt_ok] in *; [|reflexivity]. f_equal.
+  unfold group_ok in W1. apply andb_true_iff in W1. destruct W1 as [W1 _]. apply andb_true_iff in W1. destruct W1 as [_ Htm].
+  unfold terms_ok in Htm.
+  destruct (g_terms g) as [|t0 ts]; [discriminate|]. apply andb_true_iff in Htm. destruct Htm as [Ht0 Hts].
+  assert (Hall : forall t, In t (t0 :: ts) -> ident_ok (t_name t) = true).
+  { intros t [<-|Hin]; [unfold term_ok in Ht0; andb_split Ht0; assumption|].
+    rewrite forallb_forall in Hts. specialize (Hts t Hin). unfold term_ok in Hts. andb_split Hts. assumption. }
+  rewrite !map_map. apply map_ext_in. intros t Hin. apply arch_view_text, Hall, Hin.
 Qed.
 
-Theorem racc_view_noneg f : has_neg_arch f = false -> racc_view (rcontent_drop_neg f) = rcontent f.
+Theorem racc_view_content a f : wf_rfield a f = true -> racc_view (rcontent_acc f) = rcontent f.
 Proof.
-  unfold has_neg_arch, racc_view, rcontent_drop_neg, rcontent. cbn [fst snd]. intros H. f_equal.
-  induction (f_items f) as [|i r IH]; [reflexivity|]. cbn [existsb] in H. apply orb_false_iff in H. destruct H as [Hi Hr].
-  cbn [flat_map]. rewrite !map_app, (IH Hr). f_equal.
-  destruct i as [r0 alts|seg segs trail|]; cbn [item_entries map]; try reflexivity.
-  cbn [item_neg_arch] in Hi. apply orb_false_iff in Hi. destruct Hi as [H0 Ha].
-  rewrite relc_view_drop by (apply rel_content_noneg, H0). do 2 f_equal.
-  induction alts as [|[w r1] alts IHa]; [reflexivity|]. cbn [existsb snd] in Ha. apply orb_false_iff in Ha. destruct Ha as [H1 Ha'].
-  cbn [map snd]. rewrite relc_view_drop by (apply rel_content_noneg, H1). rewrite (IHa Ha'). reflexivity.
+  intros H. unfold wf_rfield in H. andb_split H.
+  unfold racc_view, rcontent_acc, rcontent. cbn [fst snd]. f_equal. unfold f_items.
+  assert (Hi : forall i, wf_item a i = true -> map (map relc_view) (map (map relx_acc) (item_entries i)) = item_entries i).
+  { intros i Hw. destruct i as [r alts|seg segs trail|]; cbn [item_entries map]; try reflexivity.
+    cbn [wf_item] in Hw. apply andb_true_iff in Hw. destruct Hw as [Hr Ha].
+    rewrite (relc_view_rel r Hr). do 2 f_equal.
+    induction alts as [|[w r1] alts IH]; [reflexivity|]. cbn [forallb] in Ha. apply andb_true_iff in Ha. destruct Ha as [Hwr Ha].
+    unfold wf_alt in Hwr. cbn [fst snd] in Hwr. apply andb_true_iff in Hwr. destruct Hwr as [_ Hr1].
+    cbn [map snd]. rewrite (relc_view_rel r1 Hr1), (IH Ha). reflexivity. }
+  cbn [flat_map]. rewrite !map_app, (Hi _ W0). f_equal.
+  clear -W Hi. induction (f_rest f) as [|[w i] r IH]; [reflexivity|].
+  cbn [forallb] in W. apply andb_true_iff in W. destruct W as [Hwi Hr]. unfold wf_more in Hwi. cbn [fst snd] in Hwi.
+  apply andb_true_iff in Hwi. destruct Hwi as [_ Hi'].
+  cbn [map snd flat_map]. rewrite !map_app, (Hi _ Hi'), (IH Hr). reflexivity.
 Qed.
